@@ -76,7 +76,7 @@ class BaseNode(Node):
                     value = self.value.value
                 else:
                     value = self.value
-        if np.isscalar(value) and value in [None, Keyword.NONE]:
+        if value is None or (np.isscalar(value) and value==Keyword.NONE):   # (None is not a numpy scalar)
             value = None
         elif self.dimension or self.value_slice:
             # cast multidimensional values
